@@ -118,6 +118,27 @@ def run(tier):
                 "goals": [[("x", 1)], [("y", 1)], [("x", 2)]] + ([[("u", 2)]] if i % 2 == 0 else []),
                 "params": {}, "sigma0": {}, "features": ["long-decimals"], "id": f"longdec-{i}"}
     cases += [long_decimal_case(i) for i in range(4 if quick else 40)]
+
+    def decimal_expression_case(i):
+        """probabilities written as arithmetic over decimals: the decimal as divisor, as base of a power, in a difference"""
+        forms = [
+            H.div(H.num(1), H.num(Fr(5, 2))),                                   # 1/2.5
+            H.div(H.num(Fr(1, 10)), H.num(Fr(2, 5))),                           # 0.1/0.4
+            H.pw(H.num(Fr(3, 4)), 2),                                           # 0.75**2
+            H.sub(H.num(1), H.pw(H.num(Fr(1, 2)), 2)),                          # 1 - 0.5**2
+            H.mul(H.num(Fr(1, 2)), H.div(H.num(1), H.num(Fr(5, 4)))),           # 0.5*(1/1.25) printed with precedence
+            H.div(H.num(Fr(3, 10)), H.num(3)),                                  # 0.3/3
+            H.div(H.num(1), H.mul(H.num(Fr(5, 2)), H.num(2))),                  # 1/(2.5*2)
+            H.sub(H.num(Fr(9, 10)), H.div(H.num(1), H.num(Fr(5, 2)))),          # 0.9 - 1/2.5
+        ]
+        pr = forms[i % len(forms)]
+        init = [H.assign("x", H.ex(H.num(0))), H.assign("y", H.ex(H.num(1)))]
+        body = [H.assign("x", ("choice", [(H.add(H.var("x"), H.num(1)), pr), (H.var("x"), H.sub(H.num(1), pr))])),
+                H.assign("y", H.ex(H.add(H.var("y"), H.mul(H.div(H.num(1), H.num(Fr(5, 2))), H.var("x")))))]
+        return {"family": "decimal-expression", "program": {"init": init, "guard": H.TT, "body": body},
+                "goals": [[("x", 1)], [("x", 2)], [("y", 1)]], "params": {}, "sigma0": {},
+                "features": ["decimal-expression-probability"], "id": f"decexpr-{i}"}
+    cases += [decimal_expression_case(i) for i in range(8 if quick else 24)]
     # ---- (a) spellings: parse-level law + full pipeline
     parse_jobs, full_jobs = [], []
     for c in cases:
